@@ -28,7 +28,7 @@ engines["lean-proofs"] = {"name": "lean-proofs", "path": "lean/ActixNet", "serve
 import subprocess
 try:
     out = subprocess.run(["git", "-C", "/repo", "log", "--format=%h %s"], capture_output=True, text=True).stdout
-    base["hooks"]["source_commits"] = [l.split(" ", 1)[0] for l in out.splitlines() if "verif hooks" in l][::-1]
+    base["hooks"]["source_commits"] = [l.split(" ", 1)[0] for l in out.splitlines() if "verif hook" in l][::-1]
 except Exception:
     pass
 na_reasons = base.get("not_applicable_reasons", {})
